@@ -635,6 +635,17 @@ func main() {
 
 		gen.ArpaPrefixDeviations(2, sh(), func(family, s string) { other(family, s) })
 		gen.ArpaFullDeviations(2, sh(), func(s string) { other("full-name-deviations", s) })
+
+		// Every single-bit flip, deletion and doubling of every byte of the
+		// canonical names of every shape.
+		sm := sh()
+		for _, base := range gen.ArpaCanonicalNames() {
+			gen.ByteMutations(base, func(m string) {
+				if sm.Mine() {
+					other("byte-mutations", m)
+				}
+			})
+		}
 	})
 }
 
